@@ -69,6 +69,31 @@ func band(pix []uint8, stride int, s Spec) {
 		}
 		return
 	}
+	if s.Fill == "opaque" {
+		// a fully opaque picture (what Opaque() reports true for) with the extreme channel values present
+		bpp := map[string]int{"NRGBA": 4, "RGBA": 4, "NRGBA64": 8, "RGBA64": 8}[s.Type]
+		if bpp == 0 {
+			return
+		}
+		for o := 0; o+bpp <= len(pix); o += bpp {
+			if bpp == 4 {
+				pix[o+3] = 0xFF
+			} else {
+				pix[o+6], pix[o+7] = 0xFF, 0xFF
+			}
+			switch (o / bpp) % 97 {
+			case 0:
+				for k := 0; k < bpp; k++ {
+					pix[o+k] = 0xFF
+				}
+			case 1:
+				for k := 0; k < bpp*3/4; k++ {
+					pix[o+k] = 0
+				}
+			}
+		}
+		return
+	}
 	if s.Fill == "flatrows" || s.Fill == "flatcols" || s.Fill == "flat" {
 		// every row one colour (stripes, letterboxing, page margins; bands of 1-3 equal rows), every column one
 		// colour, or the whole picture one colour: what run-length shortcuts and "same as the last pixel" memos key on
@@ -468,7 +493,7 @@ func Gen(t *rapid.T, label string, o GenOpts) Spec {
 	if rapid.IntRange(0, 5).Draw(t, label+"widestride") == 0 {
 		s.StrideExtra = rapid.SampledFrom([]int{1, 2, 3, 4, 5, 8, 13, 64}).Draw(t, label+"strideextra")
 	}
-	fills := []string{"prng", "prng", "prng", "ff", "zero", "ramp", "rowbands", "colbands", "sparse", "edges", "flatrows", "flatrows", "flatcols", "flat"}
+	fills := []string{"prng", "prng", "prng", "ff", "zero", "ramp", "rowbands", "colbands", "sparse", "edges", "flatrows", "flatrows", "flatcols", "flat", "opaque"}
 	if o.Orbit {
 		fills = append(fills, "orbit-h", "orbit-v")
 	}
